@@ -218,6 +218,14 @@ NoClass == [mnclass |-> "", mn |-> "", form |-> "", sub |-> "", ind |-> FALSE, f
             nvals |-> 0, nchars |-> 0, label |-> FALSE, strclass |-> "", delim |-> "", shape |-> ""]
 Prefix8(b) == IF Len(b) <= 8 THEN b ELSE SubSeq(b, 1, 8)
 
+\* free text (form "raw") has no abstract form, but one thing about it is known: its characters.  An accepted statement that decodes as an indexed instruction on
+\* base register R (or on the program counter) whose operand text never mentions R was "encoded as something else" (C12): LDA ,PCR emitted as A6 84 = LDA ,X
+HasCode(txt, c) == \E j \in DOMAIN txt : txt[j] = c
+HasPC(txt) == \E j \in 1..(Len(txt) - 1) : txt[j] = 80 /\ txt[j + 1] = 67
+NamesOK(txt, d) ==
+  (d.ok /\ d.mode = "ind" /\ d.idx.ok /\ d.idx.sub # "extind") =>
+     (IF d.idx.pcr THEN HasPC(txt) ELSE HasCode(txt, CASE d.idx.reg = "X" -> 88 [] d.idx.reg = "Y" -> 89 [] d.idx.reg = "U" -> 85 [] OTHER -> 83))
+
 JudgeAccepted(t) ==
   LET prog == t.prog
       obs == t.obs
@@ -237,6 +245,8 @@ JudgeAccepted(t) ==
            {Item("enc", k, cls(k), sym(k)) : k \in {j \in 1..n : st[j].must \in {"accept", "either"} /\ obs[j].bytes \notin st[j].encs}}
       \cup {Item("shouldreject", k, cls(k), sym(k)) : k \in {j \in 1..n : st[j].must = "reject"}}
       \cup {Item("decodes", k, cls(k), sym(k)) : k \in {j \in 1..n : prog[j].mn \in Mnemonics /\ ~dec(j)}}
+      \cup {Item("names", k, cls(k), sym(k)) : k \in {j \in 1..n : prog[j].form = "raw" /\ prog[j].mn \in Mnemonics /\ "optcodes" \in DOMAIN prog[j] /\ dec(j)
+                                                                     /\ ~NamesOK(prog[j].optcodes, Decode(obs[j].bytes))}}
       \cup {Item("reserved", k, cls(k), sym(k)) : k \in {j \in 1..(n - 1) : prog[j + 1].mn # "ORG" /\ obs[j + 1].addr # obs[j].addr + Len(obs[j].bytes)}}
       \cup {Item("placed", k, cls(k), sym(k)) : k \in {j \in 1..n : obs[j].bytes # <<>> /\ obs[j].addr # t.origin + offs[j]
                                                                        /\ \A i \in 1..(j - 1) : obs[i].bytes # <<>> => obs[i].addr = t.origin + offs[i]}}
